@@ -4,6 +4,7 @@ from engine import hx
 from engine.env import STUBS, WORLD  # noqa: F401
 from harness import bench as B
 from harness.bench import drain
+from harness import C15
 
 PROPERTY = "C07"
 P = {}
@@ -223,10 +224,25 @@ def stream_cut(a: int) -> bool:
     return hx.check((a,), (out,), ([sig(m) for m in msgs],), "requests arriving as a byte stream (cut anywhere): exactly one answer each, in order")
 
 
+def wire_once(k1: int, sched: List[int], tgt: List[int]) -> bool:
+    """
+    pre: -3 <= k1 <= 48 and k1 in P["ks"] and len(sched) == P["slots"] and len(tgt) == P["slots"]
+    pre: all(0 <= s < P["maxstep"] for s in sched) and all(sched[i] < sched[i + 1] for i in range(len(sched) - 1)) and all(0 <= x <= 2 for x in tgt)
+    post: _
+    """
+    # "answers exactly one request" also on the wire: the write worker and the connection thread (C15's cooperative transform
+    # of work_write_queue / _handle_connections) must hand every queued answer to the transport exactly once
+    C15.P.clear()
+    C15.P.update(P)
+    return C15.fifo_body(k1, sched, tgt)
+
+
 def specs(tier, seed, carve):
     q = tier == "quick"
     out = [dict(id="one_step/state%d" % st, fn="one_step", params={"st": st}, timeout=600, bound="connection state %#x x 18 message kinds (incl. requests of a command without python class, decoded from the wire, with one and with two Origin-Host AVPs) x 5 defect classes (incl. T flag with the id in the retransmission window) x handler raises/returns" % STATES[st])
            for st in range(len(STATES))]
+    out.append(dict(id="wire_once/1x2/p1", fn="wire_once", params={"producers": [["plain", "avp"]], "slots": 1, "maxstep": 90, "ks": [-1, 0, 1, 20, 21]}, timeout=1500,
+                    bound="two queued answers, the first send accepting k bytes (k in {1, 20, 21, all}) or failing softly; every placement of 1 preemption between write worker and connection thread (harness/C15.fifo)"))
     nbytes = sum(len(mk(k_, 1, 1).as_bytes()) for k_ in ("dwr", "ccr_unknown_app", "dwr"))
     step = 24
     for lo in range(0, nbytes + 1, step):
